@@ -3,6 +3,7 @@ package main
 // Executes case lines against the real package, one answer line per case.
 
 import (
+	"runtime/debug"
 	"bufio"
 	"bytes"
 	"encoding/hex"
@@ -523,7 +524,11 @@ func dictContents(d og.Dict) string {
 
 // runDict replays a history of `S k v`, `D k`, `G k` operations (separated by " ; ") on a fresh Dict.
 func runDict(spec string) string {
-	d := og.NewDict()
+	return runDictFrom(og.NewDict(), spec)
+}
+
+// runDictFrom runs the operations on d (the zero value Dict{} is the documented nil dictionary: empty, Set not allowed).
+func runDictFrom(d og.Dict, spec string) string {
 	var out []string
 	for _, op := range strings.Split(spec, " ; ") {
 		f := strings.Fields(op)
@@ -782,6 +787,38 @@ func handle(line string) string {
 			cls = encClass(err)
 		}
 		return fmt.Sprintf("%d %d %s", w.writes, inj, cls)
+	case "encfh":
+		if len(f) < 6 {
+			return "BADCASE"
+		}
+		proto, err := strconv.Atoi(f[1])
+		k, err2 := strconv.Atoi(f[4])
+		if err != nil || err2 != nil {
+			return "BADCASE"
+		}
+		v, err := parseValue(f[5:])
+		if err != nil {
+			return "BADCASE"
+		}
+		var log []any
+		g, err := refHook(f[3], &log)
+		if err != nil {
+			return "BADCASE"
+		}
+		w := &chunkWriter{failAt: k}
+		e := og.NewEncoderWithConfig(w, &og.EncoderConfig{Protocol: proto, PersistentRef: g, StrictUnicode: f[2] == "1"})
+		err, p := encodeOne(e, v)
+		if p != "" {
+			return "PANIC:" + p
+		}
+		inj := 0
+		cls := "-"
+		if err == errInjected {
+			inj = 1
+		} else if err != nil {
+			cls = encClass(err)
+		}
+		return fmt.Sprintf("%d %d %s", w.writes, inj, cls)
 	case "rt":
 		if len(f) < 4 {
 			return "BADCASE"
@@ -823,6 +860,8 @@ func handle(line string) string {
 		return runConv(pd, su, []byte(s))
 	case "dict":
 		return runDict(strings.TrimPrefix(line, "dict "))
+	case "dictz":
+		return runDictFrom(og.Dict{}, strings.TrimPrefix(line, "dictz "))
 	case "reenc":
 		if len(f) != 3 {
 			return "BADCASE"
@@ -900,6 +939,8 @@ func runLines(in io.Reader, out io.Writer) {
 }
 
 func main() {
+	// a runaway recursion in the code under test should end the process quickly (the default limit is 1 GB of stack)
+	debug.SetMaxStack(128 << 20)
 	if len(os.Args) >= 2 && os.Args[1] == "par" {
 		parMain(os.Args[2:])
 		return
